@@ -7,7 +7,7 @@ SPEC = {
                                     "C17_platform_L2", "C17_gitlab_idempotent", "C17_github_idempotent", "C17_platforms_converge",
                                     "C17_server_platforms_L1", "C17_foreign_untouched", "C17_server_platforms_converge",
                                     "C17_gitlab_prefix_L1_refuted", "C17_counting_skips_starves_refuted", "C17_nonvacuous"]},
-    "harness_args": lambda tier: ["C17", "--n", 260, "--diffs", 100, "--servers", 32] if tier == "quick"
+    "harness_args": lambda tier: ["C17", "--n", 240, "--diffs", 90, "--servers", 26] if tier == "quick"
                                  else ["C17", "--n", 4000, "--diffs", 2000, "--servers", 500],
     # used three times (three extra seeds) when an obligation broke without an oracle failure: keep it at quick-tier size
     "search_args": lambda tier: ["C17", "--n", 300, "--diffs", 80, "--servers", 40],
